@@ -289,7 +289,7 @@ def oracle(ctx):
             torch.manual_seed(seed)
             m = mcquad(lambda x: torch.stack([x.sum(), (x * x).sum()]), lambda x: -0.5 * (x * x).sum(), torch.zeros(1, dtype=DT),
                        method="mh", nsamples=20000, nburnout=2000, step_size=1.0)
-            if abs(float(m[0])) > 0.15 or abs(float(m[1]) - 1.0) > 0.2:
+            if not (abs(float(m[0])) <= 0.15 and abs(float(m[1]) - 1.0) <= 0.2):
                 ctx.fail("oracle", "mcquad:mh:moments", {"seed": seed}, m, "mean 0, variance 1 within 5 sigma")
             ctx.count(("mh-moments", seed))
 
